@@ -145,9 +145,12 @@ mod shape1 {
             assert!(tl.t_x.verif_frame_value(0) == Some(f32::default()));
             assert!(tl.t_x.verif_frame_value(1) == Some(v.x));
             assert!(tl.t_x.verif_map_len() == 1);
-            // the keyframe data struct has exactly the animated fields
+            // the generated keyframe builder: position, value and (optional) easing reach the keyframe
             let kf = mina::KeyframeBuilder::build(&One::keyframe(0.5).x(3.0));
-            let _ = kf;
+            assert!(kf.verif_time() == 0.5 && kf.verif_data().x == Some(3.0) && kf.verif_easing().is_none());
+            let kf2 = mina::KeyframeBuilder::build(&mina::KeyframeBuilder::easing(One::keyframe(0.75), Easing::InQuad));
+            assert!(kf2.verif_time() == 0.75 && kf2.verif_data().x.is_none());
+            assert!(matches!(kf2.verif_easing(), Some(Easing::InQuad)));
         }
     }
 }
